@@ -105,6 +105,11 @@ func (c *char) e4Listener(e event.AttackEnd) {
 		}
 	}
 
+	// none of the attacked targets is weak to wind: no follow-up
+	if len(toPickFrom) == 0 {
+		return
+	}
+
 	target := toPickFrom[c.engine.Rand().Intn(len(toPickFrom))]
 
 	// Follow-up Attack
